@@ -43,6 +43,23 @@ CHECKS = {
     ),
 }
 
+CHECKS['C08'] = dict(
+    pkg='c08', level='exploration',
+    technique='property-based testing: rapid-generated well-formed requests on all five signing endpoints vs. independent SSZ signing root + BLS verification',
+    level_text=('Generated well-formed requests with arbitrary field values on Sign/Multisign/SignBeaconAttestation(s)/SignBeaconProposal, by name '
+                'or key, through the service and the gRPC handler (wire round trip), batches 1..600 of distinct keys under GOMAXPROCS 1..16; every '
+                'returned signature is verified under the addressed account\'s public key over a signing root computed by the harness\'s own '
+                'sha256 merkleisation; response length must equal request length. Unique data per position makes a misplaced signature fail.'),
+    level_note='Trusts herumi BLS verification (go-eth2-types) and crypto/sha256; the SSZ merkleisation is the harness\'s own (no fastssz / go-eth2-client).',
+    parts=[part('TestC08', 250, 1500, qshards=2)],
+    rule=('rapid-generated cases: GOMAXPROCS 1..16 x 1-5 calls over the five endpoints, batch sizes from {1,2,3,p-1,p,p+1,2p+-1,3p,3p+1,4..99,100..600}, '
+          'uint64 extremes for slot/index/proposer, advancing epochs per key; non-trivial iff a batch larger than GOMAXPROCS was signed at every '
+          'position or a signed request carried an extreme field value; distinct = sha256 of the case JSON'),
+    essential=['batch-larger-than-gomaxprocs-all-signed', 'batch>=100', 'endpoint-attest', 'endpoint-attests', 'endpoint-propose', 'endpoint-sign',
+               'endpoint-multisign', 'gomaxprocs-01'],
+    assumptions=['herumi BLS verification is trusted', 'requests are well-formed (32-byte roots and domains)'],
+)
+
 ENGINES = [
     dict(name='rapid-harness', path='/verif/harness', kind_free_text='Go test module (pgregory.net/rapid v1.3.0) compiled against /repo with -tags verif; driver /verif/check shards by seed, merges coverage, writes evidence',
          serves_properties=sorted(CHECKS)),
